@@ -90,6 +90,7 @@ type interpreter struct {
 	sizes              types.Sizes            // the effective type-sizing function
 	goroutines         int32                  // atomically updated
 	extCache           map[*ssa.Function]externalFn
+	fnInfos            map[*ssa.Function]*fnInfo
 	linknames          map[string]string // local function (pkg.Name) -> target
 	lnCache            map[*ssa.Function]*ssa.Function
 }
@@ -106,7 +107,9 @@ type frame struct {
 	caller           *frame
 	fn               *ssa.Function
 	block, prevBlock *ssa.BasicBlock
-	env              map[ssa.Value]value // dynamic values of SSA variables
+	env              []value // dynamic values of SSA variables, indexed by slot
+	info             *fnInfo
+	buf              []value
 	locals           []value
 	defers           *deferred
 	result           value
@@ -130,8 +133,8 @@ func (fr *frame) get(key ssa.Value) value {
 			return r
 		}
 	}
-	if r, ok := fr.env[key]; ok {
-		return r
+	if s, ok := fr.info.slot[key]; ok {
+		return fr.env[s]
 	}
 	panic(fmt.Sprintf("get: no value for %T: %v", key, key.Name()))
 }
@@ -197,35 +200,35 @@ func visitInstr(fr *frame, instr ssa.Instruction) continuation {
 		// no-op
 
 	case *ssa.UnOp:
-		fr.env[instr] = unop(instr, fr.get(instr.X))
+		fr.set(instr, unop(instr, fr.get(instr.X)))
 
 	case *ssa.BinOp:
-		fr.env[instr] = binop(instr.Op, instr.X.Type(), fr.get(instr.X), fr.get(instr.Y))
+		fr.set(instr, binop(instr.Op, instr.X.Type(), fr.get(instr.X), fr.get(instr.Y)))
 
 	case *ssa.Call:
 		fn, args := prepareCall(fr, &instr.Call)
-		fr.env[instr] = call(fr.i, fr, instr.Pos(), fn, args)
+		fr.set(instr, call(fr.i, fr, instr.Pos(), fn, args))
 
 	case *ssa.ChangeInterface:
-		fr.env[instr] = fr.get(instr.X)
+		fr.set(instr, fr.get(instr.X))
 
 	case *ssa.ChangeType:
-		fr.env[instr] = fr.get(instr.X) // (can't fail)
+		fr.set(instr, fr.get(instr.X)) // (cannot fail)
 
 	case *ssa.Convert:
-		fr.env[instr] = conv(instr.Type(), instr.X.Type(), fr.get(instr.X))
+		fr.set(instr, conv(instr.Type(), instr.X.Type(), fr.get(instr.X)))
 
 	case *ssa.SliceToArrayPointer:
-		fr.env[instr] = sliceToArrayPointer(instr.Type(), instr.X.Type(), fr.get(instr.X))
+		fr.set(instr, sliceToArrayPointer(instr.Type(), instr.X.Type(), fr.get(instr.X)))
 
 	case *ssa.MakeInterface:
-		fr.env[instr] = iface{t: instr.X.Type(), v: fr.get(instr.X)}
+		fr.set(instr, iface{t: instr.X.Type(), v: fr.get(instr.X)})
 
 	case *ssa.Extract:
-		fr.env[instr] = fr.get(instr.Tuple).(tuple)[instr.Index]
+		fr.set(instr, fr.get(instr.Tuple).(tuple)[instr.Index])
 
 	case *ssa.Slice:
-		fr.env[instr] = slice(fr.get(instr.X), fr.get(instr.Low), fr.get(instr.High), fr.get(instr.Max))
+		fr.set(instr, slice(fr.get(instr.X), fr.get(instr.Low), fr.get(instr.High), fr.get(instr.Max)))
 
 	case *ssa.Return:
 		switch len(instr.Results) {
@@ -291,17 +294,17 @@ func visitInstr(fr *frame, instr ssa.Instruction) continuation {
 		spawnGoroutine(fr, instr, fn, args)
 
 	case *ssa.MakeChan:
-		fr.env[instr] = make(chan value, asInt64(fr.get(instr.Size)))
+		fr.set(instr, make(chan value, asInt64(fr.get(instr.Size))))
 
 	case *ssa.Alloc:
 		var addr *value
 		if instr.Heap {
 			// new
 			addr = new(value)
-			fr.env[instr] = addr
+			fr.set(instr, addr)
 		} else {
 			// local
-			addr = fr.env[instr].(*value)
+			addr = fr.env[slotOf(fr.info, instr)].(*value)
 		}
 		*addr = zero(mustDeref(instr.Type()))
 
@@ -315,7 +318,7 @@ func visitInstr(fr *frame, instr ssa.Instruction) continuation {
 		for i := range slice {
 			slice[i] = zero(tElt)
 		}
-		fr.env[instr] = slice[:nlen]
+		fr.set(instr, slice[:nlen])
 
 	case *ssa.MakeMap:
 		var reserve int64
@@ -325,23 +328,23 @@ func visitInstr(fr *frame, instr ssa.Instruction) continuation {
 		if !fitsInt(reserve, fr.i.sizes) {
 			panic(fmt.Sprintf("ssa.MakeMap.Reserve value %d does not fit in int", reserve))
 		}
-		fr.env[instr] = makeMap(instr.Type().Underlying().(*types.Map).Key(), reserve)
+		fr.set(instr, makeMap(instr.Type().Underlying().(*types.Map).Key(), reserve))
 
 	case *ssa.Range:
-		fr.env[instr] = rangeIter(fr.get(instr.X), instr.X.Type())
+		fr.set(instr, rangeIter(fr.get(instr.X), instr.X.Type()))
 
 	case *ssa.Next:
-		fr.env[instr] = fr.get(instr.Iter).(iter).next()
+		fr.set(instr, fr.get(instr.Iter).(iter).next())
 
 	case *ssa.FieldAddr:
 		px := fr.get(instr.X).(*value)
 		if px == nil {
 			panic(runtimeError("invalid memory address or nil pointer dereference"))
 		}
-		fr.env[instr] = &(*px).(structure)[instr.Field]
+		fr.set(instr, &(*px).(structure)[instr.Field])
 
 	case *ssa.Field:
-		fr.env[instr] = fr.get(instr.X).(structure)[instr.Field]
+		fr.set(instr, fr.get(instr.X).(structure)[instr.Field])
 
 	case *ssa.IndexAddr:
 		x := fr.get(instr.X)
@@ -363,16 +366,16 @@ func visitInstr(fr *frame, instr ssa.Instruction) continuation {
 			if i < 0 || i >= int64(len(cells)) {
 				panic(runtimeError(fmt.Sprintf("index out of range [%d] with length %d", i, len(cells))))
 			}
-			fr.env[instr] = &cells[i]
+			fr.set(instr, &cells[i])
 		} else {
 			ci, t := symIndex(idx, len(cells))
 			switch {
 			case t == nil:
-				fr.env[instr] = &cells[ci]
+				fr.set(instr, &cells[ci])
 			case onlyLoadedOrStored(instr) && scalarCells(cells):
-				fr.env[instr] = symPtr{cells, t}
+				fr.set(instr, symPtr{cells, t})
 			default:
-				fr.env[instr] = &cells[P.concretize(t)]
+				fr.set(instr, &cells[P.concretize(t)])
 			}
 		}
 
@@ -390,7 +393,7 @@ func visitInstr(fr *frame, instr ssa.Instruction) continuation {
 				if i < 0 || i >= int64(len(x)) {
 					panic(runtimeError(fmt.Sprintf("index out of range [%d] with length %d", i, len(x))))
 				}
-				fr.env[instr] = x[i]
+				fr.set(instr, x[i])
 				return kNext
 			}
 			cells = strBytes(x)
@@ -405,15 +408,15 @@ func visitInstr(fr *frame, instr ssa.Instruction) continuation {
 			if ci < 0 || ci >= len(cells) {
 				panic(runtimeError(fmt.Sprintf("index out of range [%d] with length %d", ci, len(cells))))
 			}
-			fr.env[instr] = cells[ci]
+			fr.set(instr, cells[ci])
 		case scalarCells(cells):
-			fr.env[instr] = selectCell(cells, t)
+			fr.set(instr, selectCell(cells, t))
 		default:
-			fr.env[instr] = cells[P.concretize(t)]
+			fr.set(instr, cells[P.concretize(t)])
 		}
 
 	case *ssa.Lookup:
-		fr.env[instr] = lookup(instr, fr.get(instr.X), fr.get(instr.Index))
+		fr.set(instr, lookup(instr, fr.get(instr.X), fr.get(instr.Index)))
 
 	case *ssa.MapUpdate:
 		m := fr.get(instr.Map)
@@ -430,14 +433,14 @@ func visitInstr(fr *frame, instr ssa.Instruction) continuation {
 		}
 
 	case *ssa.TypeAssert:
-		fr.env[instr] = typeAssert(fr.i, instr, fr.get(instr.X).(iface))
+		fr.set(instr, typeAssert(fr.i, instr, fr.get(instr.X).(iface)))
 
 	case *ssa.MakeClosure:
 		var bindings []value
 		for _, binding := range instr.Bindings {
 			bindings = append(bindings, fr.get(binding))
 		}
-		fr.env[instr] = &closure{instr.Fn.(*ssa.Function), bindings}
+		fr.set(instr, &closure{instr.Fn.(*ssa.Function), bindings})
 
 	case *ssa.Phi:
 		log.Fatal("unreachable") // phis are processed at block entry
@@ -483,7 +486,7 @@ func visitInstr(fr *frame, instr ssa.Instruction) continuation {
 				r = append(r, v)
 			}
 		}
-		fr.env[instr] = r
+		fr.set(instr, r)
 
 	default:
 		panic(fmt.Sprintf("unexpected instruction: %T", instr))
@@ -602,25 +605,34 @@ func callSSA(i *interpreter, caller *frame, callpos token.Pos, fn *ssa.Function,
 		panic("interp requires ssa.BuilderMode to include InstantiateGenerics to execute generics")
 	}
 
-	fr.env = make(map[ssa.Value]value)
+	fr.info = i.infoFor(fn)
+	nl := len(fn.Locals)
+	if k := len(fr.info.free); k > 0 {
+		buf := fr.info.free[k-1]
+		fr.info.free = fr.info.free[:k-1]
+		fr.buf = buf
+	} else {
+		fr.buf = make([]value, fr.info.n+nl)
+	}
+	fr.env, fr.locals = fr.buf[:fr.info.n:fr.info.n], fr.buf[fr.info.n:]
 	fr.block = fn.Blocks[0]
-	fr.locals = make([]value, len(fn.Locals))
 	for i, l := range fn.Locals {
 		fr.locals[i] = zero(mustDeref(l.Type()))
-		fr.env[l] = &fr.locals[i]
+		fr.set(l, &fr.locals[i])
 	}
 	for i, p := range fn.Params {
-		fr.env[p] = args[i]
+		fr.set(p, args[i])
 	}
 	for i, fv := range fn.FreeVars {
-		fr.env[fv] = env[i]
+		fr.set(fv, env[i])
 	}
 	for fr.block != nil {
 		runFrame(fr)
 	}
-	// Destroy the locals to avoid accidental use after return.
-	for i := range fn.Locals {
-		fr.locals[i] = bad{}
+	// Recycle the environment (locals cannot escape their frame in go/ssa).
+	if len(fr.info.free) < 8 {
+		clear(fr.buf)
+		fr.info.free = append(fr.info.free, fr.buf)
 	}
 	return fr.result
 }
@@ -717,7 +729,7 @@ func executePhis(fr *frame) []ssa.Instruction {
 			fr.phitemps = append(fr.phitemps, fr.get(phi.Edges[predIndex]))
 		}
 		for i, phi := range phis {
-			fr.env[phi.(*ssa.Phi)] = fr.phitemps[i]
+			fr.set(phi.(*ssa.Phi), fr.phitemps[i])
 		}
 	}
 	return nonPhis
@@ -758,7 +770,6 @@ func doRecover(caller *frame) value {
 	return iface{}
 }
 
-
 // lastPanicStack is the target-program stack at the innermost frame of the
 // most recent unrecovered panic.
 var lastPanicStack string
@@ -777,4 +788,54 @@ func targetStack(fr *frame) string {
 		fmt.Fprintf(&sb, "  %s (block near %s)\n", f.fn, pos)
 	}
 	return sb.String()
+}
+
+// fnInfo numbers the SSA values of a function so that a frame's environment
+// is a slice rather than a map.
+type fnInfo struct {
+	slot map[ssa.Value]int
+	n    int
+	free [][]value // recycled env+locals buffers
+}
+
+func slotOf(info *fnInfo, v ssa.Value) int { return info.slot[v] }
+
+func (fr *frame) set(v ssa.Value, x value) { fr.env[fr.info.slot[v]] = x }
+
+func (i *interpreter) infoFor(fn *ssa.Function) *fnInfo {
+	if in, ok := i.fnInfos[fn]; ok {
+		return in
+	}
+	in := &fnInfo{slot: map[ssa.Value]int{}}
+	add := func(v ssa.Value) {
+		if _, ok := in.slot[v]; !ok {
+			in.slot[v] = in.n
+			in.n++
+		}
+	}
+	for _, p := range fn.Params {
+		add(p)
+	}
+	for _, fv := range fn.FreeVars {
+		add(fv)
+	}
+	for _, l := range fn.Locals {
+		add(l)
+	}
+	for _, b := range fn.Blocks {
+		for _, ins := range b.Instrs {
+			if v, ok := ins.(ssa.Value); ok {
+				add(v)
+			}
+		}
+	}
+	if fn.Recover != nil {
+		for _, ins := range fn.Recover.Instrs {
+			if v, ok := ins.(ssa.Value); ok {
+				add(v)
+			}
+		}
+	}
+	i.fnInfos[fn] = in
+	return in
 }
